@@ -2431,7 +2431,7 @@ class TypeBlocks(ContainerOperand):
                 bool_block.flags.writeable = False
                 yield bool_block
 
-        return self.from_blocks(blocks())
+        return self.from_blocks(blocks(), shape_reference=self._shape)
 
 
     def notna(self, include_none: bool = True) -> 'TypeBlocks':
@@ -2443,7 +2443,7 @@ class TypeBlocks(ContainerOperand):
                 bool_block.flags.writeable = False
                 yield bool_block
 
-        return self.from_blocks(blocks())
+        return self.from_blocks(blocks(), shape_reference=self._shape)
 
 
     def clip(self,
